@@ -508,6 +508,8 @@ class Interp:
             if k is not None:
                 ty = mvv.group(1).split('::')[-1]; var = mvv.group(2)
                 return lambda ctx, fr: Agg(ty, [], var, k)
+        if st in ('RangeFull', 'std::ops::RangeFull', 'core::ops::RangeFull'):
+            return lambda ctx, fr: Agg('RangeFull', [])
         return self._c_named_const(crate, body, fn)
 
     def _c_named_const(self, crate, body, fn):
@@ -956,6 +958,15 @@ class Interp:
             if isinstance(a0, Agg) and a0.vidx is None or isinstance(a0, Agg) and a0.name not in ('Option', 'Result', 'tuple'):
                 k2 = '<' + self._runtime_type(crate, a0, key[key.index(' as '):]) + key[key.index(' as '):]
                 if self.resolve_static(crate, k2) is not None: key = k2
+            else:
+                # containers with a crate-local trait impl (impl<T: Search> Search for Vec<T> / Option<T>)
+                want = 'Vec' if isinstance(a0, VecV) else ('Option' if isinstance(a0, Agg) and a0.name == 'Option' else ('String' if isinstance(a0, StrV) else None))
+                mt = re.match(r'^<\w+ as ([\w:]+)(?:<.*>)?>::(\w+)$', key)
+                if want and mt:
+                    trait, meth = mt.group(1).split('::')[-1], mt.group(2)
+                    if (want, trait, meth) in self.crates[crate].trait_impls:
+                        k2 = '<' + want + key[key.index(' as '):]
+                        if self.resolve_static(crate, k2) is not None: key = k2
         tgt = self.resolve_static(crate, key)
         if tgt is None:
             raise Unsupported('no model or MIR for call ' + key)
@@ -1110,7 +1121,12 @@ class Interp:
             if names:
                 if len(names) > 1:
                     flat = lambda t: re.sub(r'\b(?:\w+::)+(\w+)', r'\1', re.sub(r"'\w+ ?,? ?", '', t)).replace(' ', '')
-                    hdr = lambda n: info.aliases_full.get(info.inherent_hdr.get(n, ''), info.inherent_hdr.get(n, ''))
+                    def hdr(n):
+                        h = info.inherent_hdr.get(n, '')
+                        if h in info.aliases_full: return info.aliases_full[h]
+                        for a, full in info.aliases_full.items():
+                            if a in h: h = re.sub(r'\b%s\b' % re.escape(a), lambda _m: full, h)
+                        return h
                     same = [n for n in names if flat(hdr(n)) == flat(mi.group(1))]
                     if same: names = same
                 f = self._pick(info, names)
